@@ -43,6 +43,11 @@ CHECKS = {
         text="Spectral.tla enumerates every shape <= 4x4 (quick) / 5x5 (thorough), every non-increasing singular-value vector over {0,2,3,5} (all multiplicity patterns: k-fold repeats, several zeros) and unitary-library picks, and computes rank, nullities, sorted values, ||A||_F^2, determinant and the Eckart-Young optimum for every R (consistency checked as invariants). Each class is built exactly (A = U diag(s) V^H, dyadic exactly-unitary U, V) and run through classical_qsvd_full and classical_qsvd for every R; returned values vs expected, orthonormality, reconstruction and truncation error are logged in units and bounded by the trace spec. Random float matrices of prescribed rank use the complex-adjoint oracle.",
         note="Known finding (recorded): degenerate spectra (repeated singular value / null space of dimension >= 2) violate orthonormality/reconstruction. Trusted: oracle product and complex-adjoint SVD; bounds 1024 / 16384 units.",
         design_ref="5/C05"),
+    "C06": dict(
+        technique="Spectral.tla class space (shape x rank structure) and structure classes instantiated exactly and run through qr_qua; contract residuals judged by MeasureTrace.tla",
+        text="Every svd class of Spectral.tla (all shapes <= 4x4 / 5x5 incl. wide and 1 x n, every rank pattern) plus its replica scaled by 2^-200..2^200, and structure classes for all shapes <= 5x5 (integer, pure imaginary, upper triangular with zero-real-part diagonal, zero column, zero matrix, scaled Gaussian) and random Gaussian shapes <= 6x6: output shapes, orthonormal Q, triangular R and A = QR are measured with the harness' own arithmetic and bounded by the trace spec. No sign convention is assumed.",
+        note="Known finding (recorded): rank-deficient leading columns. Trusted: oracle product; bound 1024 units.",
+        design_ref="5/C06"),
 }
 
 NOT_YET = "check not built yet in this round; see DESIGN.md section 5"
